@@ -468,7 +468,21 @@ pub fn gen_plan(seed: u64, p: &Profile) -> Plan {
                     Action::DropMemo { m: g.idx() }
                 } else {
                     g.ni += 1;
-                    Action::MemoCall { m: g.idx(), key: g.r.range(0, 2) }
+                    let (m, key) = (g.idx(), g.r.range(0, 2));
+                    match g.r.below(4) {
+                        0 => {
+                            // hit: the same key twice while the first node is still held
+                            actions.push(Action::MemoCall { m, key });
+                        }
+                        1 => {
+                            // re-creation: drop the node just handed out, stabilise, ask again
+                            actions.push(Action::MemoCall { m, key });
+                            actions.push(Action::DropNode { node: usize::MAX, pool: Pool::I });
+                            actions.push(Action::Stabilise);
+                        }
+                        _ => {}
+                    }
+                    Action::MemoCall { m, key }
                 }
             }
             14 => Action::OnUpdate { node: g.idx(), pool: g.pool() },
